@@ -9,6 +9,7 @@ import (
 	"encoding/binary"
 	"fmt"
 	"math/big"
+	"strings"
 
 	"verifharness/internal/h"
 
@@ -214,6 +215,20 @@ func runLockup(seed uint64, n int, outDir string, replay string) {
 					} else {
 						// the owner contract claims and then REVERTs (flag byte 53 = 1); its caller ignores the failure
 						before := lkRec(mdb, batch, lkAddr(caller, false), ma, k.b, k.e)
+						allRecs := func() string {
+							var sb strings.Builder
+							for oo := 1; oo <= 2; oo++ {
+								for mm := 1; mm <= 2; mm++ {
+									for bb := byte(1); bb <= 3; bb++ {
+										for ee := uint32(0); ee < 3; ee++ {
+											sb.WriteString(lkRec(mdb, batch, lkAddr(oo, false), lkAddr(0x10+mm, false), bb, ee) + ";")
+										}
+									}
+								}
+							}
+							return sb.String()
+						}
+						allBefore := allRecs()
 						o.Op("snap")
 						ans("ok")
 						o.Op("claim %d %d %d %d %d %d %d %d %d", caller, 0x10+k.m, k.b, k.e, bn, 3_000_000, gl, map[bool]int{true: 0, false: 1}[toQi], base)
@@ -235,6 +250,10 @@ func runLockup(seed uint64, n int, outDir string, replay string) {
 						}
 						if len(evm.ETXCache) != base {
 							o.Violate("c12-lockup-claim-etx-survives-revert", "ETX of a reverted claim stays in the cache")
+						}
+						if allAfter := allRecs(); allAfter != allBefore {
+							// e.g. a record claimed by an earlier, successful frame of the same transaction comes back
+							o.Violate("c12-reverted-frame-changes-other-lockup-records", "the lockup ledger (all owners, miners, bytes, epochs) differs before and after a frame that claimed and reverted")
 						}
 					}
 				case x < 85:
